@@ -1,0 +1,22 @@
+//go:build verif
+
+package crdt
+
+// Contracts for property C38, observed-remove set, continued: merging never
+// writes a dot slice of either input. The per-element result slice starts empty
+// with no capacity and from then on lives in storage allocated by this Merge, so
+// the in-place appends of appendDotUnique can only land in fresh storage.
+
+//@ property C38
+
+//@ func containsDot(dots, target)
+//@   also C39
+//@   loop 1 invariant scanning: -1 <= rangeindex && rangeindex < len(dots)
+//@   ensures empty-has-none: len(dots) == 0 ==> !result
+
+//@ func appendDotUnique(dots, d)
+//@   also C39
+//@   ensures grows-in-place-or-into-fresh-storage: block(result) == block(dots) || fresh(result)
+//@   ensures no-capacity-means-fresh-storage: cap(dots) == 0 ==> fresh(result) && old_objects_unchanged(dots)
+//@   ensures writes-only-its-own-storage: old_objects_unchanged_except(dots)
+//@   ensures never-empty: len(result) >= 1
